@@ -89,7 +89,7 @@ def run_check(pid, tier, seed, table, no_proofs=False):
         if want_kernel and suite_name in ("order", "validate", "ops"):
             kpairs.extend((suite_name, c, m) for c, m in zip(cases, mo))
         if want_kernel:
-            kcalls.extend(c for c, m in zip(cases, mo) if c["op"] in ("rate", "pwin", "pdraw", "prank") and m.get("exc") is None)
+            kcalls.extend(c for c, m in zip(cases, mo) if c["op"] in ("rate", "pwin", "pdraw", "prank", "gauss") and m.get("exc") is None)
         for c, m in zip(cases, mo):
             i = impl.run_case(c)
             corr_cases += 1
